@@ -716,6 +716,14 @@ func (fv *FV) evalCall(e *Expr, env *Env) Val {
 			return Val{T: fmt.Sprintf("(sref %s)", x.T), S: "Int"}
 		}
 		return Val{T: fv.asTermSpec(env, x).T, S: "Int"}
+	case "addr":
+		// addr(x): the reference of the object a heap-allocated local (x escapes, &x is taken) lives in
+		if e.Args[0].Op == "id" && env.names != nil {
+			if v, ok := env.names[e.Args[0].Name]; ok && v.Loc != nil && len(v.Loc.path) == 0 {
+				return Val{T: v.Loc.ref, S: "Int"}
+			}
+		}
+		panic(specFail("addr(): argument is not a heap-allocated local"))
 	case "sel":
 		a, i := arg(0), arg(1)
 		var et types.Type
